@@ -289,11 +289,11 @@ class Variant:
             # we have to treat the last element of the genotypes array as special
             counts[None] = np.sum(self.genotypes == tskit.MISSING_DATA)
             for i, allele in enumerate(self.alleles[:-1]):
-                counts[allele] = np.sum(self.genotypes == i)
+                counts[allele] += np.sum(self.genotypes == i)
         else:
             bincounts = np.bincount(self.genotypes, minlength=self.num_alleles)
             for i, allele in enumerate(self.alleles):
-                counts[allele] = bincounts[i]
+                counts[allele] += bincounts[i]
         return counts
 
     def frequencies(self, remove_missing=None) -> dict[str, float]:
